@@ -8,8 +8,8 @@ CONSTANTS DepthCurve, DepthOther, Seed
 B1 == <<1, MkClamped(1, <<Half>>, <<0>>)>>
 B2 == <<2, MkClamped(2, <<Half>>, <<0>>)>>
 K2 == <<2, MkClamped(2, <<Half>>, <<1>>)>>
-MCShapes == Curves({K2}, {2, 3}, {TRUE}, Seed) \cup Surfaces({B1}, {B2}, {3}, {TRUE}, Seed)
-            \cup Volumes({B1}, {B2}, {B1}, {TRUE}, Seed)
+MCShapes == Curves({K2}, {2, 3}, {TRUE}, Seed) \cup Surfaces({B1}, {B2}, {3}, {TRUE}, Seed) \cup Surfaces({K2}, {B1}, {3}, {TRUE}, Seed)
+            \cup Volumes({B1}, {B2}, {B1}, {TRUE}, Seed) \cup Volumes({B2}, {B1}, {K2}, {TRUE}, Seed)
 DepthOf(s) == IF PDim(s) = 1 THEN DepthCurve ELSE DepthOther
 Views == {"ctrlpts", "weights", "ctrlptsw"}
 Next == /\ Len(hist) < DepthOf(sh0)
